@@ -101,7 +101,17 @@ def build_space(cfg):
     if k == 'cn':
         return o.cn(cfg['n'])
     if k == 'tensor':
-        return o.tensor_space(tuple(cfg['shape']), dtype=cfg['dtype'])
+        kw = {}
+        if cfg.get('weighting') == 'array':
+            kw['weighting'] = (0.5 + (np.arange(int(np.prod(cfg['shape'])))
+                                      % 3).reshape(cfg['shape'])).astype(
+                np.dtype(cfg['dtype']) if np.dtype(cfg['dtype']).kind == 'f'
+                else 'float64')
+        elif cfg.get('weighting') is not None:
+            kw['weighting'] = cfg['weighting']
+        if cfg.get('exponent') is not None:
+            kw['exponent'] = cfg['exponent']
+        return o.tensor_space(tuple(cfg['shape']), dtype=cfg['dtype'], **kw)
     if k == 'discr':
         nd = len(cfg['shape'])
         return o.uniform_discr([0.0] * nd, cfg['len'], cfg['shape'],
